@@ -2249,7 +2249,7 @@ class CxxParser:
                 if not isinstance(dtype, (Pointer, Type)):
                     raise self._parse_error(tok)
                 dtype.volatile = True
-            elif nonptr_fn:
+            elif nonptr_fn and not self.lex.token_peek_if("*", "&", "DBL_AMP"):
                 # remove any inner grouping parens
                 while True:
                     gtok = self.lex.token_if("(")
